@@ -109,3 +109,49 @@ func verif_C01_stream() {
 		verifAssert(verifIsPrefix(got, body), "C01.partial-is-prefix")
 	}
 }
+
+// verif_C01_server: the same differential through the whole server. A DATA
+// message of up to 3 arbitrary octets plus the end marker arrives with one cut
+// at an ARBITRARY offset; the last octets arrive alone or together with the end
+// of the connection (a Read returning n > 0 and io.EOF, as TLS connections do);
+// the backend reads with a buffer of 1, 3 or 8 octets. It must read exactly
+// refUnstuff's body and then EOF, in SMTP and LMTP mode.
+func verif_C01_server() {
+	L := verifBound(3, 4)
+	msg := nondetBytes(L)
+	stream := append(append([]byte{}, msg...), "\r\n.\r\n"...)
+	body, end, ok := refUnstuff(stream)
+	assume(ok && end == len(stream)) // no earlier end marker inside the arbitrary octets
+	lmtp := nondetBool()
+	bufsz := []int{1, 3, 8}[verifChoice(3)]
+	var got []byte
+	var rerr error
+	be := &vbackend{}
+	be.dataFn = func(_ *vsession, r io.Reader) error {
+		got, rerr = verifReadAll(r, bufsz)
+		if rerr == io.EOF {
+			return nil
+		}
+		return rerr
+	}
+	s, _ := verifServer(be)
+	s.LMTP = lmtp
+	hello := "EHLO c\r\n"
+	if lmtp {
+		hello = "LHLO c\r\n"
+	}
+	in := append([]byte(hello+"MAIL FROM:<s@v>\r\nRCPT TO:<r@v>\r\nDATA\r\n"), stream...)
+	vc := &vconn{in: in, final: io.EOF}
+	vc.cuts = []int{nondetInt(1, len(in)-1)}
+	vc.finalWithData = nondetBool()
+	c := newConn(vc, s)
+	s.handleConn(c)
+	verifSettle()
+	verifObserve("c01srv", msg, lmtp, bufsz, vc.finalWithData, len(got), rerr == io.EOF)
+	verifAssert(be.count("Data") == 1, "C01.server-data-called")
+	verifAssert(rerr == io.EOF, "C01.server-complete-message-ends-with-eof")
+	verifAssert(bytes.Equal(got, body), "C01.server-body-exact")
+	reps, wf := verifParseReplies(vc.out)
+	verifAssert(wf && len(reps) == 6 && reps[5].code == 250, "C01.server-message-accepted")
+	verifReach("C01.server-end")
+}
